@@ -6,6 +6,7 @@ import (
 	"go/token"
 	"go/types"
 	"strings"
+	"sync"
 
 	"verif/checker/core"
 )
@@ -18,7 +19,7 @@ func init() {
 			"initialisers: (a) never stored to (no assignment, index/field store, delete, ++, address taken) and only used through non-mutating operations — methods of module types are summarised " +
 			"(a method mutates if it stores through its receiver, transitively), external types by a table (*strings.Replacer, *log.Logger, error, reflect.Type: safe; *math/rand.Rand: NOT safe); " +
 			"(b) a sync / sync/atomic type; (c) a module type with a mutex field all of whose methods lock first.  Anything else is a violation (mutable state shared by concurrent requests) or undecided.",
-		Props: []string{"C17"},
+		Props: []string{"C17", "C08"},
 		Floor: map[string]int{"v2": 14, "root": 10},
 		Run:   runR171,
 	})
@@ -333,6 +334,12 @@ func runR171(c *core.Ctx) {
 
 // classifyUse decides what one identifier use does to the variable.
 func classifyUse(c *core.Ctx, inf *types.Info, par map[ast.Node]ast.Node, id *ast.Ident, mut map[*types.Func]bool) string {
+	return classifyUseX(c, inf, par, id, mut, func(call *ast.CallExpr, arg *ast.Ident) string { return argMutated(c, inf, call, arg, mut) })
+}
+
+// classifyUseX is classifyUse with the treatment of "handed to a callee" supplied by the caller (so that the
+// interprocedural walk can carry its own recursion state).
+func classifyUseX(c *core.Ctx, inf *types.Info, par map[ast.Node]ast.Node, id *ast.Ident, mut map[*types.Func]bool, argFn func(*ast.CallExpr, *ast.Ident) string) string {
 	// climb through selectors / index expressions to find the outermost access path
 	var top ast.Node = id
 	for {
@@ -376,6 +383,19 @@ func classifyUse(c *core.Ctx, inf *types.Info, par map[ast.Node]ast.Node, id *as
 			return "unknown: address taken (&" + core.ExprString(p.X) + ")"
 		}
 	case *ast.CallExpr:
+		// handed to a callee as a value whose own methods write through it (a Writer, a pointer to a mutable struct)
+		if top == ast.Node(id) && p.Fun != ast.Expr(id) {
+			for _, a := range p.Args {
+				if a == ast.Expr(id) {
+					if anyMutatingMethod(c, inf.Uses[id], mut) == "" {
+						continue // nothing the callee could call on it writes
+					}
+					if why := argFn(p, id); why != "" {
+						return "mutates: handed to " + core.ExprString(p.Fun) + ", which " + why
+					}
+				}
+			}
+		}
 		if fid, ok := core.Unparen(p.Fun).(*ast.Ident); ok && len(p.Args) > 0 && p.Args[0] == top {
 			if _, isB := inf.Uses[fid].(*types.Builtin); isB {
 				switch fid.Name {
@@ -410,7 +430,11 @@ func classifyMethod(c *core.Ctx, f *types.Func, mut map[*types.Func]bool) string
 			return "read"
 		}
 		if c.M.InModule(f.Pkg()) {
-			return "read: interface method " + f.Name() + " (implementations summarised separately)"
+			// a method of a module interface: it mutates if any implementation in the module does (class hierarchy)
+			if impl := mutatingImplementation(f, mut); impl != nil {
+				return "mutates: interface method " + f.Name() + " is implemented by " + impl.FullName() + ", which stores through its receiver"
+			}
+			return "read: interface method " + f.Name() + " (no implementation in the module stores through its receiver)"
 		}
 		return "unknown: interface method " + f.FullName()
 	}
@@ -581,4 +605,196 @@ func runR176(c *core.Ctx) {
 		})
 	}
 	c.Check(okUses && n > 0, rel, "-", "registry used only through sync.Map methods", reg.Pos(), fmt.Sprintf("%d uses", n), "the registry escapes as a value or is used outside sync.Map methods")
+}
+
+// mutatingImplementation returns a module method named like the interface method f, whose receiver type implements f's
+// interface and which stores through its receiver.
+func mutatingImplementation(f *types.Func, mut map[*types.Func]bool) *types.Func {
+	sig, _ := f.Type().(*types.Signature)
+	if sig == nil || sig.Recv() == nil {
+		return nil
+	}
+	iface, _ := sig.Recv().Type().Underlying().(*types.Interface)
+	for m, isMut := range mut {
+		if !isMut || m.Name() != f.Name() {
+			continue
+		}
+		ms, _ := m.Type().(*types.Signature)
+		if ms == nil || ms.Recv() == nil {
+			continue
+		}
+		rt := ms.Recv().Type()
+		if iface == nil || types.Implements(rt, iface) || types.Implements(types.NewPointer(rt), iface) {
+			return m
+		}
+	}
+	return nil
+}
+
+// anyMutatingMethod names a method in the method set of v's type that stores through its receiver ("" if none or if the
+// type is one of the documented concurrency-safe ones).
+func anyMutatingMethod(c *core.Ctx, v types.Object, mut map[*types.Func]bool) string {
+	if v == nil {
+		return ""
+	}
+	t := v.Type()
+	switch u := t.Underlying().(type) {
+	case *types.Interface:
+		for i := 0; i < u.NumMethods(); i++ {
+			m := u.Method(i)
+			if m.Pkg() != nil && c.M.InModule(m.Pkg()) {
+				if impl := mutatingImplementation(m, mut); impl != nil {
+					return m.Name() + " (" + impl.FullName() + ")"
+				}
+			}
+		}
+	case *types.Pointer:
+		if n, ok := u.Elem().(*types.Named); ok && n.Obj().Pkg() != nil && c.M.InModule(n.Obj().Pkg()) {
+			for i := 0; i < n.NumMethods(); i++ {
+				if mut[n.Method(i).Origin()] {
+					return n.Method(i).Name()
+				}
+			}
+		}
+	}
+	return ""
+}
+
+// ---- does a callee write through one of its parameters? ------------------------
+
+type paramKey struct {
+	f *types.Func
+	i int
+}
+
+// memo of finished summaries, per module (rules of different modules run concurrently)
+var paramMutMemo sync.Map // key: paramMemoKey -> string
+
+type paramMemoKey struct {
+	m *core.Module
+	k paramKey
+}
+
+// argMutated: the call passes the identifier arg; does the callee (transitively, through module functions and the module
+// implementations of interface methods) store through that parameter or call a mutating method on it?  "" = no.
+func argMutated(c *core.Ctx, inf *types.Info, call *ast.CallExpr, arg *ast.Ident, mut map[*types.Func]bool) string {
+	idx := -1
+	for i, a := range call.Args {
+		if a == ast.Expr(arg) {
+			idx = i
+		}
+	}
+	if idx < 0 {
+		return ""
+	}
+	return calleeMutatesParam(c, inf, call, idx, mut, 0, map[paramKey]bool{})
+}
+
+func calleeMutatesParam(c *core.Ctx, inf *types.Info, call *ast.CallExpr, idx int, mut map[*types.Func]bool, depth int, inprog map[paramKey]bool) string {
+	f := core.Callee(inf, call)
+	if f == nil {
+		return "is a function value (what it does with the argument is unknown)"
+	}
+	if f.Pkg() == nil || !c.M.InModule(f.Pkg()) {
+		return "" // standard library / third party: trusted not to keep or write arguments beyond their documented API
+	}
+	var targets []*types.Func
+	if core.RecvNamed(f) == nil && f.Type().(*types.Signature).Recv() != nil {
+		// interface method: every module implementation
+		sig := f.Type().(*types.Signature)
+		iface, _ := sig.Recv().Type().Underlying().(*types.Interface)
+		for _, p := range c.M.Roots {
+			for _, file := range p.Syntax {
+				for _, d := range file.Decls {
+					fd, ok := d.(*ast.FuncDecl)
+					if !ok || fd.Recv == nil || fd.Name.Name != f.Name() || fd.Body == nil {
+						continue
+					}
+					m, _ := p.TypesInfo.Defs[fd.Name].(*types.Func)
+					if m == nil {
+						continue
+					}
+					rt := m.Type().(*types.Signature).Recv().Type()
+					if iface == nil || types.Implements(rt, iface) || types.Implements(types.NewPointer(rt), iface) {
+						targets = append(targets, m)
+					}
+				}
+			}
+		}
+	} else {
+		targets = []*types.Func{f.Origin()}
+	}
+	for _, t := range targets {
+		if why := funcMutatesParam(c, t, idx, mut, depth, inprog); why != "" {
+			return why
+		}
+	}
+	return ""
+}
+
+func funcMutatesParam(c *core.Ctx, f *types.Func, idx int, mut map[*types.Func]bool, depth int, inprog map[paramKey]bool) string {
+	k := paramKey{f, idx}
+	if v, ok := paramMutMemo.Load(paramMemoKey{c.M, k}); ok {
+		return v.(string)
+	}
+	if inprog[k] || depth > 5 {
+		return ""
+	}
+	inprog[k] = true
+	defer delete(inprog, k)
+	fd := c.M.Decl(f)
+	if fd == nil || fd.Body == nil {
+		return ""
+	}
+	inf := c.M.InfoFor(fd.Pos())
+	var params []types.Object
+	for _, fl := range fd.Type.Params.List {
+		for _, n := range fl.Names {
+			params = append(params, inf.Defs[n])
+		}
+		if len(fl.Names) == 0 {
+			params = append(params, nil)
+		}
+	}
+	sig := f.Type().(*types.Signature)
+	pi := idx
+	if sig.Variadic() && idx >= len(params)-1 {
+		pi = len(params) - 1
+	}
+	if pi < 0 || pi >= len(params) || params[pi] == nil {
+		return ""
+	}
+	po := params[pi]
+	res := ""
+	par := core.Parents(fd)
+	ast.Inspect(fd.Body, func(n ast.Node) bool {
+		if res != "" {
+			return false
+		}
+		id, ok := n.(*ast.Ident)
+		if !ok || inf.Uses[id] != po {
+			return true
+		}
+		k := classifyUseX(c, inf, par, id, mut, func(call *ast.CallExpr, arg *ast.Ident) string {
+			j := -1
+			for i, a := range call.Args {
+				if a == ast.Expr(arg) {
+					j = i
+				}
+			}
+			if j < 0 {
+				return ""
+			}
+			return calleeMutatesParam(c, inf, call, j, mut, depth+1, inprog)
+		})
+		if strings.HasPrefix(k, "mutates") {
+			res = "reaches " + f.FullName() + ", where the parameter " + strings.TrimPrefix(k, "mutates: ")
+		} else if strings.HasPrefix(k, "unknown: address") {
+			res = "reaches " + f.FullName() + ", which takes the parameter's address"
+		}
+		// captured by a closure that is itself handed on: look inside (uses inside FuncLits are visited by this walk too)
+		return true
+	})
+	paramMutMemo.Store(paramMemoKey{c.M, k}, res)
+	return res
 }
